@@ -471,6 +471,17 @@ def check_loaded_data_and_options(rep, prog, runs):
                 n += 1
                 rep.fail(rule, e.func, e.node, "an element of data loaded from a file and kept for all decodes (%s) is overwritten in place: "
                          "the next decode that uses this entry sees the values of this log" % (repr(e.data[0])[:100],), node=e.node)
+            # ... or a mutating method is called on a value that is part of such loaded data (pop / append / sort / update ...)
+            if e.kind == "methcall" and e.data[1] in ("pop", "append", "extend", "remove", "clear", "insert", "sort", "reverse", "update",
+                                                      "setdefault", "popitem", "add", "discard") and \
+                    any(isinstance(x, Op) and x.op in ("call:json.load", "call:json.loads") and any(isinstance(y, Op) and y.op == "file" for y in walk(x))
+                        for x in walk(e.data[0])):
+                k = (e.func, getattr(e.node, "lineno", 0))
+                if k not in seen:
+                    seen.add(k)
+                    n += 1
+                    rep.fail(rule, e.func, e.node, "%s() is called on a value that belongs to data loaded from a file and kept for all decodes (%s): the "
+                             "next decode that uses this entry finds it changed" % (e.data[1], repr(e.data[0])[:100]), node=e.node)
             # ... or an element looked up in a container that outlives the decode (an index built once, a table of a
             # module-level object) gets a value of this log written into it
             if e.kind == "ext_setitem":
